@@ -227,7 +227,31 @@ def check_impl(sg, kind, x0, x, off, expandPosition, GeneratorSite):
         # how exactly the site is snapped is not part of the statement)
         if len(gs.eqxyz) != len(opos) or any(pdist(p, q) > tol for p, q in zip(gs.eqxyz, opos)):
             return "GeneratorSite.eqxyz %r differs from the exact orbit" % ([list(map(float, p)) for p in gs.eqxyz],), None
-    return None, (len(pos), [list(map(float, p)) for p in pos], got)
+    # the returned arrays are the caller's: after they were edited in place, expanding the same site again gives the same
+    # orbit (nothing of an earlier result is kept and handed out again), for expandPosition and, on every 4th case, GeneratorSite
+    _PURITY[0] += 1
+    first = [list(map(float, p)) for p in pos]
+    for p in pos:
+        p += 0.123
+    pos2, cls2, mult2 = expandPosition(sg, numpy.array([float(v) for v in x]), of, 1.0e-5)
+    if mult2 != mult or any(pdist(p, q) > 1e-12 for p, q in zip(pos2, first)):
+        return "a second expansion after the caller edited the first result in place gives %r, the first gave %r" % (
+            [list(map(float, p)) for p in pos2][:3], first[:3]), None
+    if _PURITY[0] % 4 == 0:
+        g1 = GeneratorSite(sg, numpy.array([float(v) for v in x]), sgoffset=of, eps=1.0e-5)
+        e1 = [list(map(float, p)) for p in g1.eqxyz]
+        x1 = list(map(float, g1.xyz))
+        for p in g1.eqxyz:
+            p += 0.321
+        g1.xyz += 0.2
+        g2 = GeneratorSite(sg, numpy.array([float(v) for v in x]), sgoffset=of, eps=1.0e-5)
+        if len(g2.eqxyz) != len(e1) or any(pdist(p, q) > 1e-12 for p, q in zip(g2.eqxyz, e1)) or pdist(g2.xyz, x1) > 1e-12:
+            return "a second GeneratorSite of the same site, built after the caller edited eqxyz/xyz of the first in place, has eqxyz %r; the first had %r" % (
+                [list(map(float, p)) for p in g2.eqxyz][:3], e1[:3]), None
+    return None, (len(pos), first, got)
+
+
+_PURITY = [0]
 
 
 def source_tie_sym(ck):
